@@ -37,8 +37,8 @@ fn main() {
             for threads in [1usize, 2, 3, 4, 8, 16, 64] {
                 let pool = rayon::ThreadPoolBuilder::new().num_threads(threads).build().expect("pool");
                 for run in 0..runs {
-                    let d = pool.install(|| pipeline::run_pipeline(inp));
-                    lines.push(format!("{}\t{}\t{}\t{:016x}", i, threads, run, d.total()));
+                    let d = util::guarded(|| pool.install(|| pipeline::run_pipeline(inp)).total()).unwrap_or(1);
+                    lines.push(format!("{}\t{}\t{}\t{:016x}", i, threads, run, d));
                 }
             }
         }
@@ -69,7 +69,8 @@ fn main() {
                 let pool = rayon::ThreadPoolBuilder::new().num_threads(threads).build().expect("pool");
                 let mut last = 0u64;
                 for &i in sq {
-                    last = pool.install(|| pipeline::run_pipeline(&inputs[i])).total();
+                    // a panic is an observation (digest 1): it cannot equal the reference of the input
+                    last = util::guarded(|| pool.install(|| pipeline::run_pipeline(&inputs[i])).total()).unwrap_or(1);
                 }
                 lines.push(format!("hist\t{}\t{}\t{:016x}", sq.iter().map(|i| i.to_string()).collect::<Vec<_>>().join(">"), threads, last));
             }
@@ -133,6 +134,24 @@ pub fn permuted_copies(st: &State) -> Vec<State> {
 }
 
 pub fn run_e1_perm<F: Fn(&State) -> Eval + Sync>(run: &mut Run, dims: &[usize], periodic: &[bool], max_n: usize, perms: bool, f: F) {
+    // a panic of the library in a call the check did not guard individually (accessors such as get_cell_at) is an
+    // observation about that state, not a harness crash
+    let check = run.property.to_lowercase();
+    let f = move |s: &State| -> Eval {
+        match util::guarded(|| f(s)) {
+            Ok(e) => e,
+            Err(p) => {
+                let mut e = Eval::default();
+                e.issue(
+                    format!("panic:{}", p.msg.chars().take(70).collect::<String>()),
+                    s.id.clone(),
+                    format!("a library call panicked at {}: {}", p.site, p.msg),
+                    tess::replay_text(&check, s, &[]),
+                );
+                e
+            }
+        }
+    };
     let fams = e1_families(run.thorough(), dims, periodic);
     let pmax = if run.thorough() { 4 } else { 3 };
     if perms {
